@@ -57,6 +57,8 @@ class GaussFamily:
         self.nZ = int(e.get("nZ", 65))
         self.fs = float(e.get("fs", 1.0))
         self.prof = e.get("prof", "exp")
+        # the 1-d profile grid reaches pn_max in normalised psi (geqdsk: always 1)
+        self.pn_max = float(e.get("pn_max", 1.3))
         self._crit = None
 
     # -- analytic function and derivatives (vectorised) ---------------------------
@@ -166,13 +168,13 @@ class GaussFamily:
 
     # -- profiles ------------------------------------------------------------------
     def F_of_psinorm(self, pn):
-        pn = np.clip(np.asarray(pn, float), 0.0, 1.0)
+        pn = np.clip(np.asarray(pn, float), 0.0, self.pn_max)
         if self.prof == "quad":
             return self.fs * (2.0 + 0.3 * (1 - pn) ** 2)
         return self.fs * (2.0 + 0.3 * np.exp(-2.0 * pn))
 
     def P_of_psinorm(self, pn):
-        pn = np.clip(np.asarray(pn, float), 0.0, 1.0)
+        pn = np.clip(np.asarray(pn, float), 0.0, self.pn_max)
         if self.prof == "quad":
             return 1.0e3 * (1 - pn) ** 2 + 10.0
         return 1.0e3 * np.exp(-3.0 * pn**2) + 10.0
@@ -190,8 +192,8 @@ class GaussFamily:
         R2, Z2 = np.meshgrid(R1D, Z1D, indexing="ij")
         psi2D = self.psi(R2, Z2)
         nf = nf or self.nR
-        psi1D = np.linspace(self.psi_axis, self.psi_bdry, nf)
-        pn = np.linspace(0.0, 1.0, nf)
+        pn = np.linspace(0.0, self.pn_max, nf)
+        psi1D = self.psi_axis + pn * (self.psi_bdry - self.psi_axis)
         fpol1D = self.F_of_psinorm(pn) if self.fs != 0 else np.array([])
         pres = self.P_of_psinorm(pn) if self.prof else None
         return R1D, Z1D, psi2D, psi1D, fpol1D, pres
@@ -255,7 +257,7 @@ BASE = dict(
     xpoint_poloidal_spacing_length=0.05,
     y_boundary_guards=1,
     finecontour_Nfine=100,
-    refine_timeout=600.0,
+    refine_timeout=120.0,
 )
 
 
